@@ -687,12 +687,12 @@ impl PreferenceManager {
         // don't do an update if the value hasn't changed
         let mut is_user_pref = true;
         if let Some(pref_value) = self.api_prefs.prefs.get(key) {
-            if pref_value.as_str().unwrap() != value {
+            if pref_value.as_str() != Some(value) {     // a non-string value (e.g., set earlier via a "true"/"false" value) counts as changed
                 is_user_pref = false;
                 self.reset_files_from_preference_change(key, value)?;
             }
         } else if let Some(pref_value) = self.user_prefs.prefs.get(key) {
-            if pref_value.as_str().unwrap() != value {
+            if pref_value.as_str() != Some(value) {
                 self.reset_files_from_preference_change(key, value)?;
             }
         } else {
